@@ -194,6 +194,10 @@ impl PlainDateTime {
             return Ok(NormalizedDurationRecord::default());
         }
         // 3. Let diff be DifferenceISODateTime(isoDateTime1, isoDateTime2, calendar, largestUnit).
+        // 2. If ISODateTimeWithinLimits(isoDateTime1) is false or ISODateTimeWithinLimits(isoDateTime2) is false, throw a RangeError exception.
+        if !self.iso.is_within_limits() || !other.iso.is_within_limits() {
+            return Err(TemporalError::range().with_message("DateTime is not within valid limits."));
+        }
         let diff = self
             .iso
             .diff(&other.iso, &self.calendar, options.largest_unit)?;
@@ -204,10 +208,10 @@ impl PlainDateTime {
         }
 
         // 5. Let destEpochNs be GetUTCEpochNanoseconds(isoDateTime2).
-        let dest_epoch_ns = other.iso.as_nanoseconds()?;
+        let dest_epoch_ns = other.iso.as_unchecked_nanoseconds();
         // 6. Return ? RoundRelativeDuration(diff, destEpochNs, isoDateTime1, unset, calendar, largestUnit, roundingIncrement, smallestUnit, roundingMode).
         diff.round_relative_duration(
-            dest_epoch_ns.0,
+            dest_epoch_ns,
             self,
             Option::<(&TimeZone, &NeverProvider)>::None,
             options,
@@ -232,10 +236,10 @@ impl PlainDateTime {
             return FiniteF64::try_from(diff.normalized_time_duration().0);
         }
         // 5. Let destEpochNs be GetUTCEpochNanoseconds(isoDateTime2).
-        let dest_epoch_ns = other.iso.as_nanoseconds()?;
+        let dest_epoch_ns = other.iso.as_unchecked_nanoseconds();
         // 6. Return ? TotalRelativeDuration(diff, destEpochNs, isoDateTime1, unset, calendar, unit).
         diff.total_relative_duration(
-            dest_epoch_ns.0,
+            dest_epoch_ns,
             self,
             Option::<(&TimeZone, &NeverProvider)>::None,
             unit,
